@@ -103,6 +103,128 @@ type c08Stack struct {
 	MaxPlain int
 	// HasCache is true if the physical LRU cache is one of the layers.
 	HasCache bool
+	// Hooks, if set, is the pass-through wrapper that sits directly under the cache: its schedule points
+	// (inside the storage transaction's Commit, inside a plain Get that missed the cache) let the scheduler
+	// run other clients *inside* the cache layer's Commit and Get.
+	Hooks *c08Hooks
+	// Ground, set by Open for every case, reads the whole store with every cache emptied first.
+	Ground func(ctx context.Context) (map[string]string, []string, error)
+}
+
+// ---- schedule points under the cache
+
+type c08CtxKey struct{}
+
+type c08Park struct {
+	Point  string // commit-pre commit-post get-post
+	Key    string
+	resume chan struct{}
+}
+
+type c08Event struct {
+	client int
+	park   *c08Park // nil: the client's call returned
+}
+
+type c08Hooks struct {
+	mu             sync.Mutex
+	armed          bool
+	pre, post, get bool
+	events         chan c08Event
+	clock          *atomic.Int64
+	eff            map[int]int64 // client -> stamp at which its storage commit returned
+}
+
+func (h *c08Hooks) arm(events chan c08Event, clock *atomic.Int64, pre, post, get bool) {
+	h.mu.Lock()
+	h.armed, h.pre, h.post, h.get, h.events, h.clock, h.eff = true, pre, post, get, events, clock, map[int]int64{}
+	h.mu.Unlock()
+}
+
+func (h *c08Hooks) disarm() {
+	h.mu.Lock()
+	h.armed = false
+	h.mu.Unlock()
+}
+
+func (h *c08Hooks) park(ctx context.Context, point, key string) {
+	id, ok := ctx.Value(c08CtxKey{}).(int)
+	if !ok {
+		return
+	}
+	h.mu.Lock()
+	on := h.armed && ((point == "commit-pre" && h.pre) || (point == "commit-post" && h.post) || (point == "get-post" && h.get))
+	ev := h.events
+	h.mu.Unlock()
+	if !on {
+		return
+	}
+	p := &c08Park{Point: point, Key: key, resume: make(chan struct{})}
+	ev <- c08Event{client: id, park: p}
+	<-p.resume
+}
+
+func (h *c08Hooks) committed(ctx context.Context) {
+	id, ok := ctx.Value(c08CtxKey{}).(int)
+	h.mu.Lock()
+	if ok && h.armed && h.clock != nil {
+		h.eff[id] = h.clock.Add(1)
+	}
+	h.mu.Unlock()
+}
+
+func (h *c08Hooks) takeEff(id int) int64 {
+	h.mu.Lock()
+	defer h.mu.Unlock()
+	v := h.eff[id]
+	delete(h.eff, id)
+	return v
+}
+
+// c08HookBackend passes everything through to the transactional backend it wraps.
+type c08HookBackend struct {
+	physical.TransactionalBackend
+	h *c08Hooks
+}
+
+type c08HookTxn struct {
+	physical.Transaction
+	h *c08Hooks
+}
+
+func (b *c08HookBackend) Get(ctx context.Context, key string) (*physical.Entry, error) {
+	e, err := b.TransactionalBackend.Get(ctx, key)
+	b.h.park(ctx, "get-post", key) // the value is read, the caller (the cache) has not stored it yet
+	return e, err
+}
+
+func (b *c08HookBackend) BeginTx(ctx context.Context) (physical.Transaction, error) {
+	tx, err := b.TransactionalBackend.BeginTx(ctx)
+	if err != nil {
+		return nil, err
+	}
+	return &c08HookTxn{tx, b.h}, nil
+}
+
+func (b *c08HookBackend) BeginReadOnlyTx(ctx context.Context) (physical.Transaction, error) {
+	tx, err := b.TransactionalBackend.BeginReadOnlyTx(ctx)
+	if err != nil {
+		return nil, err
+	}
+	return &c08HookTxn{tx, b.h}, nil
+}
+
+func (t *c08HookTxn) Commit(ctx context.Context) error {
+	t.h.park(ctx, "commit-pre", "")
+	err := t.Transaction.Commit(ctx)
+	t.h.committed(ctx)
+	t.h.park(ctx, "commit-post", "")
+	return err
+}
+
+// c08UnderCache wraps b for use directly under physical.NewCache.
+func c08UnderCache(b physical.Backend, h *c08Hooks) physical.Backend {
+	return &c08HookBackend{b.(physical.TransactionalBackend), h}
 }
 
 // adapters for physical.TransactionalBackend -------------------------------
@@ -398,6 +520,10 @@ type c08Case struct {
 	Sticky  int               `json:"sticky"` // % chance to keep stepping the same client
 	Shape   string            `json:"shape"`  // raft: random | burst
 	Hot     string            `json:"hot,omitempty"`
+	// shape "commitpark" (stacks with schedule points under the cache): which points park
+	ParkPre  bool `json:"park_commit_pre,omitempty"`
+	ParkPost bool `json:"park_commit_post,omitempty"`
+	ParkGet  bool `json:"park_get,omitempty"`
 }
 
 func c08GenOp(rng *kit.Rand, vals *int, client int, write, page bool) c08Action {
@@ -442,9 +568,15 @@ func c08GenCase(rng *kit.Rand, st *c08Stack, id, mode string) *c08Case {
 		cs.Shape = "burst"
 		cs.Hot = kit.Pick(rng, c08Keys)
 	}
+	if st.Hooks != nil && mode == "sched" && rng.Chance(3, 5) {
+		// other clients get to run inside the cache layer's Commit (before / after the storage commit)
+		// and inside a plain Get that missed the cache (after the storage read, before the cache is filled)
+		cs.Shape = "commitpark"
+		cs.ParkPre, cs.ParkPost, cs.ParkGet = rng.Chance(3, 4), rng.Chance(3, 4), rng.Chance(1, 2)
+	}
 	nTxn := 2 + rng.Intn(3)
 	nPlain := 1 + rng.Intn(st.MaxPlain)
-	if cs.Shape == "burst" {
+	if cs.Shape == "burst" || cs.Shape == "commitpark" {
 		nPlain = st.MaxPlain
 	}
 	vals := 0
@@ -507,8 +639,11 @@ func c08GenCase(rng *kit.Rand, st *c08Stack, id, mode string) *c08Case {
 	for i := 0; i < nPlain; i++ {
 		sc := c08Script{Client: client}
 		nops := 2 + rng.Intn(4)
+		if cs.Shape == "commitpark" {
+			nops += 3 // readers
+		}
 		for j := 0; j < nops; j++ {
-			a := c08GenOp(rng, &vals, client, true, true)
+			a := c08GenOp(rng, &vals, client, cs.Shape != "commitpark" || rng.Chance(1, 2), cs.Shape != "commitpark")
 			if cs.Shape == "burst" && j == 0 {
 				// the parked writes: the first plain client writes the hot key, the others write elsewhere
 				for (a.Kind != "put" && a.Kind != "del") || (a.Key == cs.Hot) != (i == 0) {
@@ -545,6 +680,8 @@ type c08Rec struct {
 	RO       bool     `json:"ro,omitempty"`        // issued on a read-only transaction
 	After_   bool     `json:"after_end,omitempty"` // issued on a transaction that had already ended
 	Pos      uint64   `json:"pos,omitempty"`       // log position (stacks with a log)
+	Eff      int64    `json:"eff,omitempty"`       // commit: stamp at which the storage commit under the cache returned
+	Parks    []string `json:"parks,omitempty"`     // schedule points at which this call was parked
 }
 
 func (r c08Rec) obs() c08Obs {
@@ -568,6 +705,12 @@ func (r c08Rec) String() string {
 	if r.Pos != 0 {
 		s += fmt.Sprintf(" @%d", r.Pos)
 	}
+	if r.Eff != 0 {
+		s += fmt.Sprintf(" storage-commit@%d", r.Eff)
+	}
+	if len(r.Parks) > 0 {
+		s += fmt.Sprintf(" parked%v", r.Parks)
+	}
 	return s
 }
 
@@ -586,17 +729,24 @@ func c08ErrClass(err error) string {
 }
 
 type c08Run struct {
-	Case    *c08Case
-	Recs    []c08Rec // all records, ordered by Call
-	Trace   []string // scheduler decisions
-	Scan    map[string]string
-	ScanAt  [2]int64
-	Aborted string
-	MaxLag  int // largest number of parked write-like operations
+	Case   *c08Case
+	Recs   []c08Rec // all records, ordered by Call
+	Trace  []string // scheduler decisions
+	Scan   map[string]string
+	ScanAt [2]int64
+	// ScanProblems: List and Get disagreed at quiescence. Ground: the store read again with caches emptied.
+	ScanProblems []string
+	Ground       map[string]string
+	HasGround    bool
+	Aborted      string
+	MaxLag       int // largest number of parked write-like operations
 	// Switches counts how often consecutive calls came from different clients (free-running mode).
 	Switches int
 	// LagAtBegin[txn ordinal] = number of operations parked when the transaction began
 	LagAtBegin map[int]int
+	// Parked counts calls parked at a schedule point under the cache; Blocked counts calls that neither
+	// returned nor parked within the grace period (waiting for a lock held by a parked call).
+	Parked, Blocked int
 }
 
 type c08Client struct {
@@ -610,16 +760,20 @@ type c08Client struct {
 	next    int // next action index (owned by scheduler until the step is handed over)
 	flying  bool
 	flyMark uint64
+	ctx     context.Context
+	state   string // scheduler's view: "" idle, running, flying, parked, blocked
+	park    *c08Park
+	parks   []string
 }
 
 type c08Exec struct {
-	ctx     context.Context
 	be      c08Backend
 	clock   atomic.Int64
 	txCount atomic.Int64
-	done    chan int
+	events  chan c08Event
 	abort   chan struct{}
 	start   chan struct{}
+	hooks   *c08Hooks
 }
 
 func c08ErrStr(err error) string {
@@ -649,9 +803,9 @@ func (c *c08Client) step(x *c08Exec, i int) c08Rec {
 	case "begin", "beginro":
 		var tx c08Txn
 		if a.Kind == "begin" {
-			tx, err = x.be.BeginTx(x.ctx)
+			tx, err = x.be.BeginTx(c.ctx)
 		} else {
-			tx, err = x.be.BeginReadOnlyTx(x.ctx)
+			tx, err = x.be.BeginReadOnlyTx(c.ctx)
 		}
 		if err == nil {
 			c.tx, c.ro, c.ended = tx, a.Kind == "beginro", false
@@ -660,24 +814,27 @@ func (c *c08Client) step(x *c08Exec, i int) c08Rec {
 		}
 	case "get":
 		var v []byte
-		v, rec.Found, err = st.Get(x.ctx, a.Key)
+		v, rec.Found, err = st.Get(c.ctx, a.Key)
 		rec.Got = string(v)
 	case "put":
-		err = st.Put(x.ctx, a.Key, []byte(a.Val))
+		err = st.Put(c.ctx, a.Key, []byte(a.Val))
 	case "del":
-		err = st.Delete(x.ctx, a.Key)
+		err = st.Delete(c.ctx, a.Key)
 	case "list":
-		rec.List, err = st.List(x.ctx, a.Key)
+		rec.List, err = st.List(c.ctx, a.Key)
 	case "page":
-		rec.List, err = st.ListPage(x.ctx, a.Key, a.After, a.Limit)
+		rec.List, err = st.ListPage(c.ctx, a.Key, a.After, a.Limit)
 	case "commit":
-		err = c.tx.Commit(x.ctx)
+		err = c.tx.Commit(c.ctx)
 		c.ended = true
 	case "rollback":
-		err = c.tx.Rollback(x.ctx)
+		err = c.tx.Rollback(c.ctx)
 		c.ended = true
 	}
 	rec.Ret = x.clock.Add(1)
+	if x.hooks != nil && a.Kind == "commit" {
+		rec.Eff = x.hooks.takeEff(c.sc.Client)
+	}
 	rec.Err, rec.ErrClass = c08ErrStr(err), c08ErrClass(err)
 	return rec
 }
@@ -686,7 +843,7 @@ func (c *c08Client) loop(x *c08Exec, free bool, wg *sync.WaitGroup) {
 	defer wg.Done()
 	defer func() {
 		if c.tx != nil && !c.ended {
-			_ = c.tx.Rollback(x.ctx)
+			_ = c.tx.Rollback(c.ctx)
 		}
 	}()
 	for i := range c.sc.Acts {
@@ -714,7 +871,7 @@ func (c *c08Client) loop(x *c08Exec, free bool, wg *sync.WaitGroup) {
 			c.recs = append(c.recs, c.step(x, i))
 		}
 		if !free {
-			x.done <- c.sc.Client
+			x.events <- c08Event{client: c.sc.Client}
 		}
 	}
 }
@@ -728,16 +885,17 @@ func c08WriteLike(c *c08Client, a c08Action) bool {
 	return a.Kind == "put" || a.Kind == "del"
 }
 
-// c08Execute runs the case. Scheduled mode: exactly one call is in progress at
-// any time, except write-like operations that are parked behind a closed gate.
+// c08Execute runs the case. Scheduled mode: exactly one call is running at any time; other calls may be
+// suspended: write-like operations parked behind a closed gate (raft), calls parked at a schedule point
+// under the cache, and calls that wait for a lock held by a parked call.
 func c08Execute(cs *c08Case, be c08Backend, st *c08Stack, rng *kit.Rand, free bool) *c08Run {
 	gate := st.Gate
 	run := &c08Run{Case: cs, LagAtBegin: map[int]int{}}
-	x := &c08Exec{ctx: context.Background(), be: be, done: make(chan int, len(cs.Scripts)+1), abort: make(chan struct{}), start: make(chan struct{})}
+	x := &c08Exec{be: be, events: make(chan c08Event, 4*len(cs.Scripts)+8), abort: make(chan struct{}), start: make(chan struct{})}
 	clients := make([]*c08Client, len(cs.Scripts))
 	var wg sync.WaitGroup
 	for i, sc := range cs.Scripts {
-		clients[i] = &c08Client{sc: sc, goCh: make(chan struct{}, 1)}
+		clients[i] = &c08Client{sc: sc, goCh: make(chan struct{}, 1), ctx: context.WithValue(context.Background(), c08CtxKey{}, sc.Client)}
 	}
 	if st.Reset != nil {
 		st.Reset()
@@ -746,21 +904,45 @@ func c08Execute(cs *c08Case, be c08Backend, st *c08Stack, rng *kit.Rand, free bo
 		st.Jitter(rng.Uint64(), true)
 		defer st.Jitter(0, false)
 	}
+	if !free && st.Hooks != nil && cs.Shape == "commitpark" {
+		x.hooks = st.Hooks
+		st.Hooks.arm(x.events, &x.clock, cs.ParkPre, cs.ParkPost, cs.ParkGet)
+	}
 	for _, c := range clients {
 		wg.Add(1)
 		go c.loop(x, free, &wg)
 	}
 	finish := func() {
+		if st.Hooks != nil {
+			st.Hooks.disarm()
+		}
+		for _, c := range clients { // abort path only: nobody is left to resume them
+			if c.park != nil {
+				close(c.park.resume)
+				c.park = nil
+			}
+		}
 		if gate != nil {
 			gate.Open()
 		}
 		fin := make(chan struct{})
 		go func() { wg.Wait(); close(fin) }()
-		select {
-		case <-fin:
-		case <-time.After(c08StepTimeout):
-			if run.Aborted == "" {
-				run.Aborted = "clients did not finish"
+		tm := time.NewTimer(c08StepTimeout)
+		defer tm.Stop()
+	wait:
+		for {
+			select {
+			case <-fin:
+				break wait
+			case e := <-x.events:
+				if e.park != nil { // only on the abort path: let it go
+					close(e.park.resume)
+				}
+			case <-tm.C:
+				if run.Aborted == "" {
+					run.Aborted = "clients did not finish"
+				}
+				break wait
 			}
 		}
 		for _, c := range clients {
@@ -782,20 +964,70 @@ func c08Execute(cs *c08Case, be c08Backend, st *c08Stack, rng *kit.Rand, free bo
 		return run
 	}
 
-	var flying []*c08Client // parked write-like operations, oldest first
-	waitDone := func(c *c08Client) bool {
-		tm := time.NewTimer(c08StepTimeout)
-		defer tm.Stop()
+	var flying []*c08Client     // write-like operations parked behind the gate, oldest first
+	lockHolders := func() int { // calls parked while they hold a lock of the layer under test
+		n := 0
+		for _, c := range clients {
+			if c.state == "parked" && c.park.Point == "get-post" {
+				n++
+			}
+		}
+		return n
+	}
+	// note takes in an event of any client; true if it settles client c's running call.
+	note := func(e c08Event, c *c08Client) bool {
+		o := clients[e.client]
+		if e.park != nil {
+			o.state, o.park = "parked", e.park
+			o.parks = append(o.parks, e.park.Point)
+			run.Parked++
+		} else {
+			o.state, o.park = "", nil
+			if len(o.parks) > 0 {
+				o.recs[len(o.recs)-1].Parks, o.parks = o.parks, nil
+			}
+			if o.flying {
+				o.flying = false
+				o.recs[len(o.recs)-1].Pos = o.flyMark
+			}
+		}
+		return o == c
+	}
+	// await waits until c's running call returned, parked, sits in the apply queue (poll) or - only while a
+	// parked call holds a lock - did none of these within the grace period and is taken to be blocked on
+	// that lock. The grace period only decides which schedules are seen, never a verdict.
+	await := func(c *c08Client, poll func() bool) bool {
+		c.state = "running"
+		hard := time.NewTimer(c08StepTimeout)
+		defer hard.Stop()
+		var grace, tick <-chan time.Time
+		if lockHolders() > 0 {
+			g := time.NewTimer(c08Grace)
+			defer g.Stop()
+			grace = g.C
+		}
+		if poll != nil {
+			tk := time.NewTicker(100 * time.Microsecond)
+			defer tk.Stop()
+			tick = tk.C
+		}
 		for {
 			select {
-			case id := <-x.done:
-				if id == c.sc.Client {
+			case e := <-x.events:
+				if note(e, c) {
 					return true
 				}
-				run.Aborted = fmt.Sprintf("client %d finished a step while client %d was expected", id, c.sc.Client)
-				return false
-			case <-tm.C:
-				run.Aborted = fmt.Sprintf("step of client %d did not return (blocked)", c.sc.Client)
+			case <-tick:
+				if poll() {
+					return true
+				}
+			case <-grace:
+				c.state = "blocked"
+				run.Blocked++
+				run.Trace = append(run.Trace, fmt.Sprintf("(c%d waits for a lock)", c.sc.Client))
+				return true
+			case <-hard.C:
+				run.Aborted = fmt.Sprintf("call of client %d neither returned nor parked", c.sc.Client)
 				return false
 			}
 		}
@@ -807,62 +1039,41 @@ func c08Execute(cs *c08Case, be c08Backend, st *c08Stack, rng *kit.Rand, free bo
 		if c.sc.Txn && (a.Kind == "begin" || a.Kind == "beginro") {
 			defer func(n int) { run.LagAtBegin[int(x.txCount.Load())-1] = n }(len(flying))
 		}
-		if gate == nil || !gate.Closed() || !c08WriteLike(c, a) {
-			var mark uint64
-			if gate != nil && c08WriteLike(c, a) {
-				mark = gate.Mark()
-			}
+		if gate == nil || !c08WriteLike(c, a) {
 			c.goCh <- struct{}{}
-			if !waitDone(c) {
+			return await(c, nil)
+		}
+		mark := gate.Mark()
+		c.goCh <- struct{}{}
+		if !gate.Closed() {
+			if !await(c, nil) {
 				return false
 			}
-			if gate != nil && c08WriteLike(c, a) {
+			if c.state == "" {
 				c.recs[len(c.recs)-1].Pos = gate.Position(mark)
 			}
 			return true
 		}
-		// gate closed and the operation may reach the log: it either returns at once
-		// (nothing to write, refused) or parks behind the gate.
-		mark := gate.Mark()
-		c.goCh <- struct{}{}
-		tm := time.NewTimer(c08StepTimeout)
-		defer tm.Stop()
-		tick := time.NewTicker(100 * time.Microsecond)
-		defer tick.Stop()
-		for {
-			select {
-			case id := <-x.done:
-				if id != c.sc.Client {
-					run.Aborted = fmt.Sprintf("client %d finished a step while client %d was stepping", id, c.sc.Client)
-					return false
+		// gate closed and the operation may reach the log: it either returns at once (nothing to write,
+		// refused) or sits in the apply queue.
+		return await(c, func() bool {
+			pos, ok := gate.Queued(mark)
+			if ok {
+				c.state, c.flying, c.flyMark = "flying", true, pos
+				flying = append(flying, c)
+				if len(flying) > run.MaxLag {
+					run.MaxLag = len(flying)
 				}
-				return true
-			case <-tick.C:
-				if pos, ok := gate.Queued(mark); ok {
-					c.flying, c.flyMark = true, pos
-					flying = append(flying, c)
-					if len(flying) > run.MaxLag {
-						run.MaxLag = len(flying)
-					}
-					return true
-				}
-			case <-tm.C:
-				run.Aborted = fmt.Sprintf("step of client %d neither returned nor parked", c.sc.Client)
-				return false
 			}
-		}
+			return ok
+		})
 	}
 	release := func() bool {
 		c := flying[0]
 		flying = flying[1:]
 		run.Trace = append(run.Trace, "release")
 		gate.Release()
-		if !waitDone(c) {
-			return false
-		}
-		c.flying = false
-		c.recs[len(c.recs)-1].Pos = c.flyMark
-		return true
+		return await(c, nil)
 	}
 	openGate := func() bool {
 		run.Trace = append(run.Trace, "open")
@@ -874,11 +1085,17 @@ func c08Execute(cs *c08Case, be c08Backend, st *c08Stack, rng *kit.Rand, free bo
 		gate.Open()
 		return true
 	}
+	resume := func(c *c08Client) bool {
+		run.Trace = append(run.Trace, fmt.Sprintf("c%d:resume(%s)", c.sc.Client, c.park.Point))
+		p := c.park
+		c.park = nil
+		close(p.resume)
+		return await(c, nil)
+	}
 
 	var last *c08Client
 	ok := true
-	burst := gate != nil && cs.Shape == "burst"
-	if burst {
+	if gate != nil && cs.Shape == "burst" {
 		// shape "burst": park one write of every plain client, then let every transaction begin and
 		// read, then apply everything, then go on at random. (Still drawn from the case's PRNG.)
 		run.Trace = append(run.Trace, "close")
@@ -891,7 +1108,7 @@ func c08Execute(cs *c08Case, be c08Backend, st *c08Stack, rng *kit.Rand, free bo
 		for _, c := range clients {
 			if c.sc.Txn && ok {
 				n := 1 + rng.Intn(4)
-				for ; n > 0 && ok && c.next < len(c.sc.Acts) && !c.flying; n-- {
+				for ; n > 0 && ok && c.next < len(c.sc.Acts) && c.state == ""; n-- {
 					k := c.sc.Acts[c.next].Kind
 					if k == "commit" || k == "rollback" {
 						break
@@ -905,23 +1122,48 @@ func c08Execute(cs *c08Case, be c08Backend, st *c08Stack, rng *kit.Rand, free bo
 		}
 	}
 	for ok {
+		// take in what suspended calls did meanwhile (a blocked call that got its lock)
+		for drained := false; !drained; {
+			select {
+			case e := <-x.events:
+				note(e, nil)
+			default:
+				drained = true
+			}
+		}
 		type choice struct {
 			c *c08Client
 			w int
 			k string
 		}
 		var ch []choice
-		total := 0
+		total, suspended, inCommit := 0, 0, false
 		for _, c := range clients {
-			if c.flying || c.next >= len(c.sc.Acts) {
-				continue
+			if c.state != "" {
+				suspended++
+				inCommit = inCommit || (c.state == "parked" && c.park.Point != "get-post")
 			}
-			w := 10
-			if c == last && cs.Sticky > 0 {
-				w = 10 + cs.Sticky // weight, not a percentage; only has to favour the same client
+		}
+		for _, c := range clients {
+			switch {
+			case c.state == "parked":
+				w := 8
+				if c.park.Point != "get-post" {
+					w = 5 // keep the commit open for a while: readers first
+				}
+				ch = append(ch, choice{c, w, "resume"})
+				total += w
+			case c.state == "" && c.next < len(c.sc.Acts):
+				w := 10
+				if c == last && cs.Sticky > 0 {
+					w = 10 + cs.Sticky // weight, not a percentage; only has to favour the same client
+				}
+				if inCommit && !c.sc.Txn {
+					w = 30
+				}
+				ch = append(ch, choice{c, w, "step"})
+				total += w
 			}
-			ch = append(ch, choice{c, w, "step"})
-			total += w
 		}
 		steps := len(ch)
 		if gate != nil {
@@ -942,7 +1184,18 @@ func c08Execute(cs *c08Case, be c08Backend, st *c08Stack, rng *kit.Rand, free bo
 			}
 		}
 		if steps == 0 && len(flying) == 0 {
-			break
+			if suspended == 0 {
+				break
+			}
+			// only blocked calls are left: one of them must come back
+			select {
+			case e := <-x.events:
+				note(e, nil)
+			case <-time.After(c08StepTimeout):
+				run.Aborted = "suspended calls never came back"
+				ok = false
+			}
+			continue
 		}
 		n := rng.Intn(total)
 		var pick choice
@@ -957,6 +1210,8 @@ func c08Execute(cs *c08Case, be c08Backend, st *c08Stack, rng *kit.Rand, free bo
 		case "step":
 			last = pick.c
 			ok = issue(pick.c)
+		case "resume":
+			ok = resume(pick.c)
 		case "release":
 			ok = release()
 		case "open":
@@ -973,9 +1228,15 @@ func c08Execute(cs *c08Case, be c08Backend, st *c08Stack, rng *kit.Rand, free bo
 	return run
 }
 
-// c08ScanStore reads the whole store through the plain interface.
-func c08ScanStore(ctx context.Context, be c08Store) (map[string]string, error) {
+const c08Grace = 25 * time.Millisecond
+
+// c08ScanStore reads the whole store through the plain interface: every listed key and every key of the
+// key space is fetched with Get. The map is what Get serves; problems are disagreements between List and
+// Get (a listed key without a value, a value for a key that is not listed).
+func c08ScanStore(ctx context.Context, be c08Store) (map[string]string, []string, error) {
 	out := map[string]string{}
+	var problems []string
+	listed := map[string]bool{}
 	var walk func(prefix string) error
 	walk = func(prefix string) error {
 		es, err := be.List(ctx, prefix)
@@ -989,18 +1250,36 @@ func c08ScanStore(ctx context.Context, be c08Store) (map[string]string, error) {
 				}
 				continue
 			}
+			listed[prefix+e] = true
 			v, f, err := be.Get(ctx, prefix+e)
 			if err != nil {
 				return err
 			}
 			if !f {
-				return fmt.Errorf("listed key %q has no value", prefix+e)
+				problems = append(problems, fmt.Sprintf("key %q is listed but Get finds no value", prefix+e))
+				continue
 			}
 			out[prefix+e] = string(v)
 		}
 		return nil
 	}
-	return out, walk("")
+	if err := walk(""); err != nil {
+		return out, problems, err
+	}
+	for _, k := range c08Keys {
+		if listed[k] {
+			continue
+		}
+		v, f, err := be.Get(ctx, k)
+		if err != nil {
+			return out, problems, err
+		}
+		if f {
+			problems = append(problems, fmt.Sprintf("Get(%q) serves %q but the key is not listed", k, v))
+			out[k] = string(v)
+		}
+	}
+	return out, problems, nil
 }
 
 // ---------------------------------------------------------------------------
@@ -1062,6 +1341,29 @@ func c08Analyse(t testing.TB, r *kit.Result, st *c08Stack, run *c08Run, free boo
 				t.Logf("   %s", rc)
 			}
 		}()
+	}
+
+	// ---- quiescence: all clients are done; what the layer under test serves now must be self-consistent
+	// and, where a cache is one of the layers, equal to the store below the cache.
+	if len(run.ScanProblems) > 0 {
+		r.Violate("C08-quiescent-get-disagrees-with-list", id,
+			fmt.Sprintf("%s: after all clients had finished, %s", st.Name, strings.Join(run.ScanProblems, "; ")), witness(nil))
+	}
+	if run.HasGround {
+		r.Count("quiescent_cache_vs_store_comparisons", 1)
+		if c08Enc(run.Ground) != c08Enc(run.Scan) {
+			var diff []string
+			for _, k := range c08Keys {
+				cv, cf := run.Scan[k]
+				gv, gf := run.Ground[k]
+				if cf != gf || cv != gv {
+					diff = append(diff, fmt.Sprintf("%s: cache serves %s, store has %s", k, c08Shown(cv, cf), c08Shown(gv, gf)))
+				}
+			}
+			r.Violate("C08-cache-stale-at-quiescence", id,
+				fmt.Sprintf("%s: after all clients had finished, reads through the cache differ from the store below it: %s", st.Name, strings.Join(diff, "; ")),
+				witness(map[string]any{"store_below_cache": run.Ground}))
+		}
 	}
 
 	// ---- group records by transaction
@@ -1157,6 +1459,34 @@ func c08Analyse(t testing.TB, r *kit.Result, st *c08Stack, run *c08Run, free boo
 	}
 	sort.Ints(ords)
 
+	// ---- evidence: plain readers released inside the Commit of a transaction that wrote the key they read
+	for _, o := range ords {
+		ti := txns[o]
+		if ti.End == nil || ti.End.Eff == 0 || ti.Writes == 0 || ti.End.Err != "" {
+			continue
+		}
+		wrote := map[string]bool{}
+		for _, ob := range ti.Script {
+			if ob.Kind == "put" || ob.Kind == "del" {
+				wrote[ob.Key] = true
+			}
+		}
+		for i := range run.Recs {
+			g := &run.Recs[i]
+			if g.Txn >= 0 || g.Kind != "get" || !wrote[g.Key] || g.Ret < ti.End.Call || g.Call > ti.End.Ret {
+				continue
+			}
+			switch {
+			case g.Ret < ti.End.Eff:
+				r.Count("reader_of_written_key_inside_commit_before_storage_commit", 1)
+			case g.Call > ti.End.Eff:
+				r.Count("reader_of_written_key_inside_commit_after_storage_commit", 1)
+			default:
+				r.Count("reader_of_written_key_parked_across_storage_commit", 1)
+			}
+		}
+	}
+
 	// ---- own writes are reflected inside the transaction (all transactions, whatever their fate)
 	for _, o := range ords {
 		ti := txns[o]
@@ -1208,7 +1538,7 @@ func c08Analyse(t testing.TB, r *kit.Result, st *c08Stack, run *c08Run, free boo
 	// DESIGN §4 C08: through the cache layer a plain Get that runs concurrently with other calls is checked
 	// per key only (the parent cache is invalidated key by key after the storage commit; a plain Get is
 	// not an atomic observation of several keys). Atomic visibility is asserted with read-only transactions.
-	perKey := st.HasCache && free
+	perKey := st.HasCache && (free || run.Parked > 0)
 	for i := range run.Recs {
 		rc := &run.Recs[i]
 		if rc.Txn >= 0 {
@@ -1338,10 +1668,18 @@ func c08Analyse(t testing.TB, r *kit.Result, st *c08Stack, run *c08Run, free boo
 			classes[cl] = append(classes[cl], map[string]any{"anomaly": a, "detail": detail})
 		}
 		if len(classes) == 0 {
-			classes["C08-nonserializable-history"] = nil
+			// no explainer for this run: is it the store at quiescence that does not fit?
+			if porcupine.CheckOperationsTimeout(c08Model(cs.Init), ops[:len(ops)-1], 20*time.Second) == porcupine.Ok {
+				classes["C08-final-state-mismatch"] = nil
+			} else {
+				classes["C08-nonserializable-history"] = nil
+			}
 		}
 		for cl, det := range classes {
 			what := fmt.Sprintf("%s: no serial order of the committed transactions and plain operations explains what the clients observed", st.Name)
+			if len(det) == 0 && cl == "C08-final-state-mismatch" {
+				what = fmt.Sprintf("%s: what the clients observed is serializable, but the store read at quiescence %v is not the state any such order ends in", st.Name, run.Scan)
+			}
 			if len(det) > 0 {
 				what += ": " + det[0].(map[string]any)["anomaly"].(*c08Anomaly).What
 			}
@@ -1407,6 +1745,9 @@ func c08Explain(r *kit.Result, st *c08Stack, run *c08Run, txns map[int]*c08TxnIn
 	for i := range run.Recs {
 		rc := &run.Recs[i]
 		pos := uint64(rc.Ret)
+		if rc.Eff != 0 {
+			pos = uint64(rc.Eff) // the storage commit under the cache, not the return of the cache's Commit
+		}
 		if truth != nil {
 			p, ok := truth.Pos[[2]int{rc.Client, rc.Idx}]
 			if !ok {
@@ -1629,18 +1970,32 @@ func c08RunCases(t *testing.T, r *kit.Result, st *c08Stack, mode string, n int, 
 					return
 				}
 			}
-			if got, err := c08ScanStore(ctx, be); err != nil || c08Enc(got) != c08Enc(cs.Init) {
-				r.Inconc("%s: store not in the initial state: %v %v", id, got, err)
+			if got, probs, err := c08ScanStore(ctx, be); err != nil || len(probs) > 0 || c08Enc(got) != c08Enc(cs.Init) {
+				r.Inconc("%s: store not in the initial state: %v %v %v", id, got, probs, err)
 				return
 			}
 			run := c08Execute(cs, be, st, rng, mode == "free")
 			t0 := c08LastStamp(run)
-			scan, err := c08ScanStore(ctx, be)
+			// quiescence: every client has returned from its last call
+			scan, probs, err := c08ScanStore(ctx, be)
 			if err != nil {
-				r.Inconc("%s: final scan failed: %v", id, err)
+				r.Inconc("%s: final scan failed with an error: %v", id, err)
 				return
 			}
-			run.Scan, run.ScanAt = scan, [2]int64{t0 + 1, t0 + 2}
+			run.Scan, run.ScanProblems, run.ScanAt = scan, probs, [2]int64{t0 + 1, t0 + 2}
+			if st.Ground != nil && run.Aborted == "" {
+				g, gp, err := st.Ground(ctx)
+				if err != nil || len(gp) > 0 {
+					r.Inconc("%s: cannot read the store below the cache: %v %v", id, gp, err)
+					return
+				}
+				run.Ground, run.HasGround = g, true
+			}
+			if run.Parked > 0 {
+				r.Count("cases_with_calls_parked_under_cache", 1)
+				r.Count("calls_parked_under_cache", run.Parked)
+				r.Count("calls_blocked_on_lock_of_parked_call", run.Blocked)
+			}
 			r.Eval(1)
 			r.Count("cases_"+mode, 1)
 			if mode == "free" {
@@ -1685,6 +2040,14 @@ func c08RunStack(t *testing.T, name string, st *c08Stack, sched, free int, extra
 	c08RunCases(t, r, st, "sched", sched, seed)
 	c08RunCases(t, r, st, "free", free, seed)
 	c08Require(r, sched, free)
+	if st.Hooks != nil && sched > 0 {
+		_, shards := kit.Shard()
+		n := int64(sched / shards)
+		r.Require("cases_with_calls_parked_under_cache", n/4)
+		r.Require("reader_of_written_key_inside_commit_before_storage_commit", n/50)
+		r.Require("reader_of_written_key_inside_commit_after_storage_commit", n/50)
+		r.Require("quiescent_cache_vs_store_comparisons", n)
+	}
 	if extra != nil {
 		extra(r, sched, free)
 	}
@@ -1719,4 +2082,11 @@ func c08ReplayStub(t *testing.T, name string) {
 		t.Skip("lives in another package")
 	}
 	kit.NewResult(t, name, kit.Seed(8), c08Rule).Write(t)
+}
+
+func c08Shown(v string, found bool) string {
+	if !found {
+		return "<absent>"
+	}
+	return v
 }
